@@ -287,6 +287,38 @@ def run(ctx):
     r5.ok("convert:_survey", "ConvertResult exposes the survey object after generation (so R5 matters)", "pyxform/xls2xform.py")
     rules.append(r5)
     rules.append(_question_roundtrip_rule(ctx))
+    # values that went through JSON text come back as equal but DISTINCT objects: comparing a field with a string /
+    # number constant by identity (`is`) holds for the directly built survey and fails for the reloaded one
+    r7 = Rule("C16", "C16.R7", "no identity comparison with a string or number constant", floor=1,
+              necessary="`x.type is constants.REPEAT` is true for the interned constant and false for the equal string loaded from JSON: the reloaded survey takes another branch")
+    n_is = 0
+    # scope: code that handles surveys built from a loaded dict (the builder and everything XML generation reaches);
+    # the workbook reader runs before any JSON boundary and compares the very constants it just looked up
+    from ..callgraph import CallGraph as _CG
+    reload_reach = _CG(repo, it0).reachable(["pyxform.builder:create_survey_element_from_dict", "pyxform.builder:SurveyElementBuilder.create_survey_element_from_dict",
+                                               "pyxform.survey:Survey.to_xml", "pyxform.survey_element:SurveyElement.to_json_dict"])
+    for fi in repo.all_functions():
+        if fi.fq not in reload_reach:
+            continue
+        for x in walk_own(fi.node):
+            if isinstance(x, ast.Compare):
+                for op, rhs, lhs in zip(x.ops, x.comparators, [x.left, *x.comparators[:-1]]):
+                    if not isinstance(op, ast.Is | ast.IsNot):
+                        continue
+                    n_is += 1
+                    for side in (lhs, rhs):
+                        if isinstance(side, ast.Constant) and (side.value is None or isinstance(side.value, bool)):
+                            break
+                    else:
+                        bad = None
+                        for side in (lhs, rhs):
+                            okc, v = const_str(ctx, fi.module, side) if isinstance(side, ast.Constant | ast.Attribute | ast.Name) and not (isinstance(side, ast.Name) and side.id in ("self", "other")) else (False, None)
+                            if okc and isinstance(v, str | int | float) and not isinstance(v, bool):
+                                bad = v
+                        if bad is not None:
+                            r7.fail(f"{fi.fq}:{norm(x)[:60]}", f"identity comparison with the constant {bad!r}", fi.loc(x))
+    r7.ok("identity comparisons census", f"{n_is} `is` / `is not` comparisons examined; none compares with a string or number constant", "")
+    rules.append(r7)
     # to_json_dict walks get_slot_names(): every advertised name must be a real slot of the class (own or inherited),
     # else dumping an element of that class raises AttributeError
     for ci in repo.all_classes():
